@@ -68,6 +68,8 @@ MkDecl(P, i) ==
                        ELSE [Blank EXCEPT !.kind = "alias", !.name = nm, !.deps = PickN(Targets(P), 1 + Below(R(3), 2), 40)])
   ELSE IF c = 11 THEN [Blank EXCEPT !.kind = "cmd", !.name = nm, !.deps = PickN(Targets(P), Below(R(3), 2), 40)]
   \* test([exe, other built file]): every built file named on the test's command line is a member of `tests`
+  ELSE IF c = 12 /\ Kinds(P, {"test"}) # {} /\ Below(R(17), 3) = 0 /\ filesT # {}
+       THEN [Blank EXCEPT !.kind = "tdeps", !.name = nm, !.deps = PickN(filesT, 1 + Below(R(3), 2), 40)]
   ELSE IF c = 12 THEN (IF exes = {} THEN exe
                        ELSE LET e1 == PickN(exes, 1, 40)
                                 more == IF Below(R(3), 2) = 0 THEN PickN(filesT \ {e1[1]}, 1, 42) ELSE <<>> IN
